@@ -1004,7 +1004,8 @@ def _classify_released(F, f, tr, operand, model, site_block):
             elif strip_generics(r.id) in ("std::ptr::const_ptr::read", "std::ptr::mut_ptr::read", "std::ptr::read", "std::ptr::read_unaligned") and r.block is not None and \
                     any(x.kind == "call" and x.id.endswith("CMSG_DATA") for x in tr.roots_of_operand(f.term(r.block)["args"][0])):
                 owned_desc.append("control-message data")
-            elif strip_generics(r.id) in ("std::vec::Vec::pop", "std::iter::Iterator::next", "std::vec::Vec::remove", "std::vec::Vec::swap_remove", "std::ops::Index::index") and r.block is not None \
+            elif strip_generics(r.id) in ("std::vec::Vec::pop", "std::iter::Iterator::next", "std::vec::Vec::remove", "std::vec::Vec::swap_remove", "std::ops::Index::index",
+                                          "std::iter::Iterator::copied", "std::iter::Iterator::cloned") and r.block is not None \
                     and _from_cmsg_list(f, tr, r.block):
                 owned_desc.append("element of the list of received descriptors")
             elif r.block is not None and (strip_generics(r.id) in LIST_MAKERS or strip_generics(r.id).endswith("::to_vec") or strip_generics(r.id) in ("std::vec::Vec::new", "std::vec::Vec::with_capacity")) \
